@@ -16,11 +16,15 @@ use std::time::{Duration, Instant};
 
 use ntex_rt::{Driver, Notify, PollResult, Runtime};
 
+/// polls a quiescence wait tolerates before it is declared "quiescent apart from a spinner"
+pub const SPIN_LIMIT: u64 = 4_000;
+
 thread_local! {
     static QUIESCE: RefCell<Option<Waker>> = const { RefCell::new(None) };
     static POLLS: Cell<u64> = const { Cell::new(0) };
     static ABORT: Cell<Abort> = const { Cell::new(Abort::None) };
     static QUIESCES: Cell<u64> = const { Cell::new(0) };
+    static SPINS: Cell<u64> = const { Cell::new(0) };
 }
 
 #[derive(Copy, Clone, Debug, PartialEq, Eq)]
@@ -59,6 +63,7 @@ impl Driver for HDriver {
     }
 
     fn run(&self, rt: &Runtime) -> std::io::Result<()> {
+        let mut armed: u64 = 0;
         loop {
             match rt.poll() {
                 PollResult::Ready => return Ok(()),
@@ -68,6 +73,24 @@ impl Driver for HDriver {
                         p.set(n);
                         n
                     });
+                    // busy-wait tolerance: a task that keeps re-scheduling itself while it waits
+                    // (observed in the readiness plumbing of the service stack) would keep the
+                    // run queue non-empty for ever. If the controller has been waiting for
+                    // quiescence for SPIN_LIMIT polls, hand control back to it and remember that
+                    // this quiescence was only "nothing but a spinner is runnable".
+                    if QUIESCE.with(|q| q.borrow().is_some()) {
+                        armed += 1;
+                        if armed > SPIN_LIMIT {
+                            armed = 0;
+                            if let Some(w) = QUIESCE.with(|q| q.borrow_mut().take()) {
+                                SPINS.with(|s| s.set(s.get() + 1));
+                                QUIESCES.with(|q| q.set(q.get() + 1));
+                                w.wake();
+                            }
+                        }
+                    } else {
+                        armed = 0;
+                    }
                     if n > self.step_budget {
                         ABORT.with(|a| a.set(Abort::StepBudget));
                         return Err(std::io::Error::other("step budget"));
@@ -120,6 +143,8 @@ impl Driver for HDriver {
 pub struct RunStats {
     pub polls: u64,
     pub quiesces: u64,
+    /// quiescence points that were reached only by the busy-wait tolerance
+    pub spins: u64,
 }
 
 /// Run `fut` on a fresh ntex runtime driven by the harness driver.
@@ -127,6 +152,7 @@ pub struct RunStats {
 pub fn run<F: Future>(fut: F, step_budget: u64, watchdog: Duration) -> (F::Output, RunStats) {
     POLLS.with(|p| p.set(0));
     QUIESCES.with(|p| p.set(0));
+    SPINS.with(|p| p.set(0));
     ABORT.with(|a| a.set(Abort::None));
     QUIESCE.with(|q| q.borrow_mut().take());
     let driver = HDriver {
@@ -137,11 +163,15 @@ pub fn run<F: Future>(fut: F, step_budget: u64, watchdog: Duration) -> (F::Outpu
     let rt = Runtime::builder().event_interval(2).build(driver.handle());
     let out = rt.block_on(fut, &driver);
     drop(rt);
-    (out, RunStats { polls: POLLS.with(Cell::get), quiesces: QUIESCES.with(Cell::get) })
+    (out, RunStats { polls: POLLS.with(Cell::get), quiesces: QUIESCES.with(Cell::get), spins: SPINS.with(Cell::get) })
 }
 
 pub fn take_abort() -> Abort {
     ABORT.with(|a| a.replace(Abort::None))
+}
+
+pub fn spins() -> u64 {
+    SPINS.with(Cell::get)
 }
 
 pub fn polls() -> u64 {
